@@ -282,7 +282,10 @@ def _arm_file(draw):
                 stext_leading=draw(st.booleans()), analysis_leading=draw(st.booleans()),
                 blank_analysis=draw(st.booleans()),
                 names=names_tok, pad=[draw(st.integers(0, 9)), draw(st.integers(0, 9)), draw(st.integers(0, 9))],
-                pad_seed=draw(st.integers(0, 2 ** 16)), trail=draw(st.integers(0, 5)))
+                pad_seed=draw(st.integers(0, 2 ** 16)), trail=draw(st.integers(0, 5)),
+                # the DATA end offset may be written one past the last byte (then it names the first byte of whatever
+                # follows DATA directly, e.g. a supplemental TEXT or ANALYSIS segment)
+                end_plus_one=draw(st.sampled_from([False, False, True])))
 
 
 def strategy(tier):
@@ -337,8 +340,12 @@ def check(case, obs):
                     stext=case['stext'], analysis=case['analysis'], analysis_in=case['analysis_in'],
                     stext_leading=case['stext_leading'], analysis_leading=case['analysis_leading'],
                     blank_analysis=case['blank_analysis'], pad=case['pad'], pad_seed=case['pad_seed'],
-                    trail=case['trail'], num_pad=case.get('num_pad'),
+                    trail=case['trail'], num_pad=case.get('num_pad'), end_plus_one=bool(case.get('end_plus_one')),
                     stext_after=case.get('stext_where') == 'behind_data', stext_first=case.get('stext_where') == 'before_text')
+        if spec['end_plus_one'] and case['pad_seed'] % 2 == 0:
+            # ... directly: no padding between DATA and the segment behind it
+            spec['pad'] = [case['pad'][0], case['pad'][1], 0]
+            obs.label('data_end_names_next_segment')
         path = os.path.join(workdir(), 'c14.fcs')
         if case.get('stext_raw') is not None:
             # a supplemental segment given verbatim: the file is read iff the reference reads the segment, and then
